@@ -46,6 +46,7 @@ def setup(ctx):
     ctx.require("monitor", "refusals_60_61", 300)
     ctx.require("monitor", "client_certs_presented", 300)
     ctx.require("monitor", "live_requests", 10)
+    ctx.require("monitor", "wired_through_serve_command", 3)
 
 
 def build_capsule(rng, base):
@@ -274,7 +275,7 @@ def capture(ctx, meta, rules, via, base, listing):
     from vf.sim import capture_factory
 
     with contextlib.redirect_stdout(io.StringIO()):
-        if via == "toml":
+        if via in ("toml", "serve"):
             import tomli_w
 
             data = {"server": {"host": "127.0.0.1", "port": 1965, "document_root": meta["root"]}, "rate_limit": {"enabled": False},
@@ -285,6 +286,17 @@ def capture(ctx, meta, rules, via, base, listing):
                 tomli_w.dump(data, f)
             sc = ServerConfig.from_toml(Path(p))
             cac = sc.get_certificate_auth_config()
+            if via == "serve":
+                # the command line does the loading and wiring itself (`nauyaca serve --config file`)
+                from vf.sim import capture_serve
+
+                ident = certs.identity("capture-server", "ec")
+                cap = capture_serve(["--config", p, "--cert", ident.certfile, "--key", ident.keyfile, "--log-level", "CRITICAL"] + (["--enable-directory-listing"] if listing else []))
+                ctx.count("monitor", "wired_through_serve_command")
+                quiet_logs()
+                if "factory" not in cap:
+                    ctx.inconclusive_because(f"serve command did not start: {cap['output'][-100:]!r}")
+                return cap, sc, cac
         else:
             sc = ServerConfig(host="127.0.0.1", port=1965, document_root=meta["root"])
             cac = CertificateAuthConfig(path_rules=[CertificateAuthPathRule(prefix=r["prefix"], require_cert=r.get("require_cert", False),
@@ -314,14 +326,16 @@ def run(ctx):
         sp = spellings(meta)
         k = 0
         for rname, rules in rs.items():
-            for via in ("object", "toml"):
+            for via in ("object", "toml", "serve"):
                 for listing in (True, False):
                     k += 1
                     if not ctx.mine(k):
                         continue
-                    if ctx.quick() and not listing and via == "object":
+                    if ctx.quick() and not listing and via in ("object", "serve"):
                         continue
                     cap, sc, cac = capture(ctx, meta, rules, via, base, listing)
+                    if "factory" not in cap:
+                        continue
                     todo = sp if not ctx.quick() else stratified(rng, sp, 260)
                     for path, cls, target in todo:
                         for cname, ident in (clients if not ctx.quick() else [clients[0], clients[1], rng.choice(clients[2:])]):
